@@ -579,8 +579,10 @@ class IntegralGenerator:
         input = [*vars, *tables]
         output = [A]
 
-        # Make sure we don't have repeated symbols in input
-        input = list(set(input))
+        # Make sure we don't have repeated symbols in input (keeping the
+        # order of first appearance, so that the generated code does not
+        # depend on the hash seed)
+        input = list(dict.fromkeys(input))
 
         # assert input and output are Symbol objects
         assert all(isinstance(i, L.Symbol) for i in input)
